@@ -160,6 +160,16 @@ def builtin_scheme(name):
         vals = {"k.1": 0.11, "k.2": 1.3, "k.3": 7.0, "irf.c": 0.1, "irf.w1": 0.12, "irf.w2": 0.4, "irf.s1": 1.0, "irf.s2": 0.3,
                 "irf.dc": 650.0, "irf.d1": 0.2, "irf.d2": -0.05, "irf.wd1": 0.02, "osc.f": 35.0, "osc.r": 0.4, "sc.2": 1.7}  # fmt: skip
         data = {"d1": B.noisy_dataset(t, g), "d2": B.noisy_dataset(t, g[1:] + 5.0, salt="d2")}
+    elif name == "shifted_irf_equal_shifts":
+        # an index-dependent IRF whose parameters coincide at neighbouring indices (shift parameters at a shared value)
+        md = {
+            "megacomplex": {"m1": {"type": "decay-sequential", "compartments": ["s1", "s2"], "rates": ["k.1", "k.2"]},
+                            "m2": {"type": "coherent-artifact", "order": 3}},
+            "irf": {"irf1": {"type": "multi-gaussian", "center": ["irf.c"], "width": ["irf.w1", "irf.w2"], "shift": ["sh.1", "sh.2", "sh.3", "sh.4"]}},
+            "dataset": {"d1": {"megacomplex": ["m1", "m2"], "irf": "irf1"}},
+        }  # fmt: skip
+        vals = {"k.1": 0.11, "k.2": 1.3, "irf.c": 0.1, "irf.w1": 0.12, "irf.w2": 0.4, "sh.1": 0.05, "sh.2": 0.05, "sh.3": 0.05, "sh.4": 0.2}
+        data = {"d1": B.noisy_dataset(t, g)}
     elif name == "multi_gaussian_irf_pfid":
         # index-independent IRF with three Gaussian components (several components per kernel call), PFID and an
         # artifact that takes its width from the IRF
@@ -199,7 +209,7 @@ def builtin_scheme(name):
         }  # fmt: skip
         vals = {"k.1": 1.1, "k.2": 0.07, "sh.a": 2.0, "sh.l1": 1240.0, "sh.l2": 1340.0, "sh.w": 90.0, "sh.b": 0.2}
         data = {"d1": B.noisy_dataset(tt, g)}
-    options = {l: {"vary": False} for l in vals if l.startswith(("j.", "irf.s", "irf.dc"))}
+    options = {l: {"vary": False} for l in vals if l.startswith(("j.", "irf.s", "irf.dc", "sh."))}
     if name == "general_decay_no_irf_penalty":
         options["k.3"] = {"expression": "$k.2 * 4"}  # an expression parameter: evaluated by the Parameters object's interpreter
     return B.make_scheme(md, vals, data, options=options)
@@ -277,7 +287,7 @@ def case_builtin_history(case):
     return core.ok(key=dg, outcome=str(info["outcome"])[:40], violations=vs)
 
 
-BUILTIN_SCHEMES = ["dispersed_irf_artifact_oscillation", "general_decay_no_irf_penalty", "full_model_spectral", "multi_gaussian_irf_pfid"]
+BUILTIN_SCHEMES = ["dispersed_irf_artifact_oscillation", "general_decay_no_irf_penalty", "full_model_spectral", "multi_gaussian_irf_pfid", "shifted_irf_equal_shifts"]
 
 
 def case_history(case):
